@@ -134,13 +134,23 @@ class USMSecurityParameters:
         """
         Construct a USMSecurityParameters instance from an SNMP/X690 Sequence
         """
+        values = [seq[index].pythonize() for index in range(6)]
+        expected_types = (bytes, int, int, bytes, bytes, bytes)
+        for index, expected_type in enumerate(expected_types):
+            # pylint: disable=unidiomatic-typecheck
+            if type(values[index]) != expected_type:
+                raise SnmpError(
+                    "Malformed security parameters. Expected element "
+                    f"{index} to be of type {expected_type.__name__} but "
+                    f"got {type(values[index]).__name__}"
+                )
         return USMSecurityParameters(
-            authoritative_engine_id=seq[0].pythonize(),
-            authoritative_engine_boots=seq[1].pythonize(),
-            authoritative_engine_time=seq[2].pythonize(),
-            user_name=seq[3].pythonize(),
-            auth_params=seq[4].pythonize(),
-            priv_params=seq[5].pythonize(),
+            authoritative_engine_id=values[0],
+            authoritative_engine_boots=values[1],
+            authoritative_engine_time=values[2],
+            user_name=values[3],
+            auth_params=values[4],
+            priv_params=values[5],
         )
 
     def __bytes__(self) -> bytes:
